@@ -10,7 +10,7 @@ OUT=seeded/REGRESS.md
 for d in seeded/${PFX}*/; do
   id=$(basename $d)
   [ -f $d/patch.diff ] || continue
-  chk=$(python3 -c "import json,sys; m=json.load(open('$d/meta.json')); print(m['caught_by'][0].split()[0])" 2>/dev/null) || continue
+  chk=$(python3 -c "import json,sys; m=json.load(open('$d/meta.json')); print(m['caught_by'][0].split()[0].strip(',;'))" 2>/dev/null) || continue
   D=$(mktemp -d /tmp/seedreg-XXXXXX); rmdir $D
   git -C /repo worktree add -q --detach $D HEAD >/dev/null 2>&1
   if git -C $D apply $PWD/$d/patch.diff 2>/dev/null || git -C $D apply --3way $PWD/$d/patch.diff 2>/dev/null; then
